@@ -27,6 +27,7 @@ import TdVerif.Lemmas.C08View
 import TdVerif.Lemmas.C08UpdateAt
 import TdVerif.Lemmas.C08Mask2Span
 import TdVerif.Lemmas.C08SetMask2
+import TdVerif.Lemmas.C08SetMask2Span
 import TdVerif.Lemmas.C08SetTensor
 import TdVerif.Lemmas.C08Out
 import TdVerif.Lemmas.C08Out2
@@ -240,6 +241,17 @@ theorem getitem_refines_stage5_mask2_spanning [Inhabited α] (L : Lazy α) (b : 
     absR r ≈ d :=
   getitem_refines_mask2_span L b keys feat hU hne0 pre post m hpre hpd hpost hm hsome r hr d hd
 
+/-- **Stage 5, a spanning mask that keeps nothing**: the result is an empty stack whose batch size is
+the dense one (an empty lazy stack has no members to read keys from: only the batch size compares). -/
+theorem getitem_stage5_mask2_spanning_none [Inhabited α] (L : Lazy α) (b : Shape) (keys : List String)
+    (feat : String → Shape) (hU : Uniform L b keys feat) (hne0 : L.members ≠ []) (pre post : List Ix) (m : T Bool)
+    (hpre : BasicPre pre) (hpd : preDims pre + 1 = L.sd) (hpost : Basic post)
+    (hm : m.shape = [at0 b (preDims pre), L.members.length]) (hnone : (nonzero m).length = 0)
+    (r : LRes α) (hr : lazyGetCoreM L (pre ++ .mask m :: post) = some r)
+    (d : TD α) (hd : (absL L).index (pre ++ .mask m :: post) = some d) :
+    r = .empty d.batch :=
+  getitem_mask2_span_none L b keys feat hU hne0 pre post m hpre hpd hpost hm hnone r hr d hd
+
 /-- **The index spec never reads out of bounds**: whenever the torch index spec accepts an index
 (`idxShape ix sh = some s`: ints in range, slices with a positive step, None, integer tensors with
 valid entries, boolean masks of the right shape), every in-bounds coordinate of the result is read
@@ -254,8 +266,8 @@ Ellipsis identically (`convert_ellipsis_to_idx` on the batch size); then for eve
 property's grammar — ints, slices, None, Ellipsis and at most one list / range / integer tensor
 of rank 1–2 (before, on or after the stack dim) or boolean mask (before or after the stack dim,
 or rank-1 on it) — what the lazy stack returns materialises to what the dense stack returns, or
-one of them raises.  NOT covered by a theorem (correspondence + oracle only): a mask of rank ≥ 2
-that starts on / spans the stack dim. -/
+one of them raises.  (A mask of rank 2 that starts on / spans the stack dim: stages 4 and 5 below,
+`getitem_refines_rank2_masks` for the entry point.) -/
 theorem getitem_refines [Inhabited α] (L : Lazy α) (b : Shape) (keys : List String)
     (feat : String → Shape) (hU : Uniform L b keys feat) (hne0 : L.members ≠ []) (ix : List Ix)
     (hadv : AtMostOneAdv ix)
@@ -279,6 +291,29 @@ theorem getitem_refines_stage4_mask2 [Inhabited α] (L : Lazy α) (b : Shape) (k
     (d : TD α) (hd : (absL L).index (pre ++ .mask m :: post) = some d) :
     absR r ≈ d :=
   getitem_refines_mask2_on L b keys feat hU hne0 pre post m w hpre hpd hpost hm r hr d hd
+
+/-- **Reads with a rank-2 mask on / spanning the stack dim, through the real entry point**
+`lazy[index]` (`lazyGetM` = `convert_ellipsis_to_idx` + `__getitem__`, Ellipsis allowed): when the
+expanded index is `pre ++ [mask2d] ++ post` with the mask starting ON the stack dim (stage 4) or one
+dim BEFORE it (stage 5, the mask keeping something), the result materialises to `dense[index]`. -/
+theorem getitem_refines_rank2_masks [Inhabited α] (L : Lazy α) (b : Shape) (keys : List String)
+    (feat : String → Shape) (hU : Uniform L b keys feat) (hne0 : L.members ≠ []) (ix0 pre post : List Ix)
+    (m : T Bool) (hix : convertEllipsis ix0 L.batch.length = some (pre ++ .mask m :: post))
+    (hpre : BasicPre pre) (hpost : Basic post)
+    (hcase : (preDims pre = L.sd ∧ ∃ w, m.shape = [L.members.length, w]) ∨
+      (preDims pre + 1 = L.sd ∧ m.shape = [at0 b (preDims pre), L.members.length] ∧ 0 < (nonzero m).length))
+    (r : LRes α) (hr : lazyGetM L ix0 = some r)
+    (d : TD α) (hd : (absL L).getitem ix0 = some d) : absR r ≈ d := by
+  unfold lazyGetM at hr
+  rw [hix] at hr
+  simp only [Option.bind_some] at hr
+  unfold TD.getitem at hd
+  have hbl : (absL L).batch.length = L.batch.length := rfl
+  rw [hbl, hix] at hd
+  simp only [Option.bind_some] at hd
+  rcases hcase with ⟨hpd, w, hm⟩ | ⟨hpd, hm, hsome⟩
+  · exact getitem_refines_stage4_mask2 L b keys feat hU hne0 pre post m w hpre hpd (fun it h => (hpost it h).2) hm r hr d hd
+  · exact getitem_refines_stage5_mask2_spanning L b keys feat hU hne0 pre post m hpre hpd hpost hm hsome r hr d hd
 
 /-! ## writes by index -/
 
@@ -378,6 +413,25 @@ theorem setitem_write_through_mask2 [Inhabited α] (L : Lazy α) (b : Shape) (ke
   setitem_refines_mask2_on L b keys feat hU hne0 pre post m w hpre hpd (fun it h => (hpost it h).2) hsdlt hm
     (fun i => noDupTargets_pre_mask1 pre post (m.select 0 i) hpre hpost (by simp [T.select, hm]))
     v hvk hvl hbd L' h
+
+/-- **Writes with a rank-2 mask spanning the stack dim** (`lazy[pre…, mask2d, post…] = v`, the mask
+covering the dim just before the stack dim and the stack dim): `__setitem__` writes row `i` of the
+value into `self[(:,)*mask_dim + (i,)]` — the lazy stack of the members' VIEWS at `i` — through
+row `i` of the mask; in terms of the members: for every kept position `(i, j)` member `j` receives,
+at the index with the mask replaced by the integer `i`, the matching position of the value
+(split along `mask_loc - num_single`, row after row).  The dense stack of the members afterwards
+is `IsSetT` of the dense stack before (hit + frame; a member is written once per row that keeps it,
+at pairwise disjoint places). -/
+theorem setitem_write_through_mask2_spanning [Inhabited α] (L : Lazy α) (b : Shape) (keys : List String)
+    (feat : String → Shape) (hU : Uniform L b keys feat) (hne0 : L.members ≠ []) (pre post : List Ix) (m : T Bool)
+    (hpre : BasicPre pre) (hpd : preDims pre + 1 = L.sd) (hpost : Basic post)
+    (hm : m.shape = [at0 b (preDims pre), L.members.length])
+    (v : TD α) (hvk : v.keys = keys) (hvl : ∀ k ∈ keys, (v.leaf k).shape = v.batch ++ feat k)
+    (hbd : idxShape (pre ++ .mask m :: post) (absL L).batch = some v.batch)
+    (L' : Lazy α) (h : lazySetCoreM L (pre ++ .mask m :: post) v = some L') :
+    L'.sd = L.sd ∧ Uniform L' b keys feat ∧ L'.members.length = L.members.length ∧
+    ∀ k ∈ keys, IsSetT (pre ++ .mask m :: post) ((absL L).leaf k) (v.leaf k) ((absL L').leaf k) :=
+  setitem_refines_mask2_span L b keys feat hU hne0 pre post m hpre hpd hpost hm v hvk hvl hbd L' h
 
 /-- **Writes, stage 1** against the executable dense spec: for a basic index (ints, slices,
 None) the dense stack of the members after `lazy[ix] = v` IS `dense[ix] = v` (batch size, keys,
@@ -1072,7 +1126,7 @@ example : BasicPre ([] : List Ix) ∧ preDims ([] : List Ix) + 1 = exL.sd ∧ Ba
 example : (match lazySetCoreM (⟨[exM 0, exM 1], 0⟩ : Lazy Int) [.mask (T.ofList [2, 2] [true, false, true, true])]
       { batch := [3], keys := ["a"], leaf := fun _ => T.arange 500 [3] } with
     | some L' => L'.members.map fun x => (x.leaf "a").toList | none => []) = [[500, 1], [501, 502]] := by decide
--- … and spanning the stack dim of `exL` (modelled + corresponded): rows [T, F, T] and [F, F, T]
+-- … and spanning the stack dim of `exL`: rows [T, F, T] and [F, F, T]
 example : (match lazySetCoreM exL [.mask (T.ofList [2, 3] [true, false, true, false, false, true])]
       { batch := [3], keys := ["a"], leaf := fun _ => T.arange 500 [3] } with
     | some L' => L'.members.map fun x => (x.leaf "a").toList | none => []) = [[500, 1], [10, 11], [501, 502]] := by decide
